@@ -9,6 +9,15 @@
 // counted once; after every (re)synchronisation each still-unconfirmed wallet
 // transaction is offered again, parents before children.
 //
+// The backend's answers (answers.go): every exported error sentinel of
+// package chain (list regenerated from the source, c20_sentinels.json), plain
+// and wrapped with %w, an error that is no sentinel, and raw node replies
+// that go through the REAL SendRawTransaction + MapRPCErr of
+// chain.BitcoindClient / chain.RPCClient / chain.NeutrinoClient (wire.go).
+// The oracle is stated on what the backend MEANT (the truth of the answer)
+// and on what the caller got, never on btcwallet's own classification.
+// Cases with "map" in their input run only the error mapping (mapping.go).
+//
 // One JSON object per case: {"in": script, "obs": universe + events with the
 // wallet's observations, "oracle": violation kinds, "tags": .., "site": ..}.
 package main
@@ -18,6 +27,7 @@ import (
 	"errors"
 	"flag"
 	"fmt"
+	"os"
 	"sort"
 	"sync"
 	"time"
@@ -49,7 +59,7 @@ type opIn struct {
 	Amt     int64    `json:"amt,omitempty"`     // publish/send: payment; 0 = Pct of the spendable balance
 	Pct     int      `json:"pct,omitempty"`     // publish/send: percentage of balance(minconf)
 	Minconf int32    `json:"minconf,omitempty"` // publish/send
-	Ans     string   `json:"ans,omitempty"`     // accept in_mempool known confirmed reject
+	Ans     string   `json:"ans,omitempty"`     // accept in_mempool known confirmed reject s:<Name> w:<Name> r:<flavour>:<truth>:<code>:<text> (answers.go)
 	NFail   bool     `json:"nfail,omitempty"`   // the hand-over's NotifyReceived fails
 	NFailC  bool     `json:"nfailc,omitempty"`  // send: the first NotifyReceived of the call fails
 	Own     []int64  `json:"own,omitempty"`     // publish/send: additional outputs paying fresh addresses of the wallet itself
@@ -63,7 +73,10 @@ type opIn struct {
 
 type caseIn struct {
 	Seed int64  `json:"seed"`
-	Ops  []opIn `json:"ops"`
+	Ops  []opIn `json:"ops,omitempty"`
+	// Map != "": not a wallet history but the error mapping of one backend
+	// flavour run over every key of the regenerated tables (mapping.go)
+	Map string `json:"map,omitempty"`
 }
 
 // ---------------------------------------------------------------- output
@@ -99,20 +112,25 @@ type evOut struct {
 	LID     uint64    `json:"lid,omitempty"`
 	Op      [2]uint64 `json:"op,omitempty"`
 	Dur     int64     `json:"dur,omitempty"`
-	Ans     string    `json:"ans,omitempty"`
+	Ans     string    `json:"ans,omitempty"`   // the answer as the model sees it (modelAnswer)
+	Truth   string    `json:"truth,omitempty"` // what the backend meant
+	Sent    string    `json:"sent,omitempty"`  // the scripted answer (string form)
 	NOK     bool      `json:"nok,omitempty"`
 	Offered []uint64  `json:"offered,omitempty"`
 	Answers []string  `json:"answers,omitempty"`
-	Res     int       `json:"res"` // 0 n/a, 1 success, 2 error
-	Src     string    `json:"src"` // script op that produced the event
+	Truths  []string  `json:"truths,omitempty"`
+	Sents   []string  `json:"sents,omitempty"` // resend: the scripted answers (string form) per offer
+	Res     int       `json:"res"`             // 0 n/a, 1 success, 2 error
+	Src     string    `json:"src"`             // script op that produced the event
 	OpIdx   int       `json:"opidx"`
 	Obs     snapshot  `json:"obs"`
 }
 
 type obsOut struct {
-	Universe []txOut `json:"universe"`
-	Minconfs []int32 `json:"minconfs"`
-	Events   []evOut `json:"events"`
+	Universe []txOut  `json:"universe"`
+	Minconfs []int32  `json:"minconfs"`
+	Events   []evOut  `json:"events"`
+	Mapping  []mapRow `json:"mapping,omitempty"`
 }
 
 type caseOut struct {
@@ -128,25 +146,31 @@ var minconfs = []int32{0, 1, 6}
 
 // ---------------------------------------------------------------- backend wrapper
 
-// backend wraps the simulated chain: it records every SendRawTransaction
-// under its own lock (the wallet's resend goroutine runs concurrently after a
+// backend wraps the simulated chain: it answers SendRawTransaction as
+// scripted (answers.go: sentinels, wrapped sentinels, raw node replies through
+// the real chain clients of wire.go), records every call under its own lock
+// (the wallet's resend goroutine runs concurrently after a
 // resynchronisation) and lets a script pass a given number of NotifyReceived
 // calls before simchain's NotifyFail applies (SendOutputs subscribes once
 // while creating the transaction and once in the hand-over).
 type backend struct {
 	*simchain.Chain
 	mu         sync.Mutex
+	next       []ansSpec // consumed front first; empty = accept
 	sent       []sentRec
 	notifyPass int // upcoming NotifyReceived calls answered ok before NotifyFail is consulted
 	notifyN    int // calls seen
+	sendErr    error
 	// probe hooks (extract fallback): called on entry, outside the lock
 	hookNotify func()
 	hookSend   func(tx *wire.MsgTx)
 }
 
 type sentRec struct {
-	hash chainhash.Hash
-	ans  simchain.SendAnswer
+	hash  chainhash.Hash
+	tx    *wire.MsgTx
+	spec  ansSpec
+	model string // modelAnswer
 }
 
 func (b *backend) SendRawTransaction(tx *wire.MsgTx, allowHighFees bool) (*chainhash.Hash, error) {
@@ -155,13 +179,30 @@ func (b *backend) SendRawTransaction(tx *wire.MsgTx, allowHighFees bool) (*chain
 	}
 	b.mu.Lock()
 	defer b.mu.Unlock()
-	h, err := b.Chain.SendRawTransaction(tx, allowHighFees)
-	ans := simchain.Accept
-	if n := len(b.Chain.SentAnswers); n > 0 {
-		ans = b.Chain.SentAnswers[n-1]
+	spec := ansSpec{src: "accept", kind: "accept", truth: "accept"}
+	if len(b.next) > 0 {
+		spec = b.next[0]
+		b.next = b.next[1:]
 	}
-	b.sent = append(b.sent, sentRec{tx.TxHash(), ans})
-	return h, err
+	h := tx.TxHash()
+	var err error
+	switch spec.kind {
+	case "accept":
+		b.Chain.Mempool[h] = tx
+	case "raw":
+		err = wires.send(spec.flavour, spec.reply, tx)
+	default:
+		err = errorOf(spec)
+	}
+	model, merr := modelAnswer(spec, err)
+	if merr != nil && b.sendErr == nil {
+		b.sendErr = merr
+	}
+	b.sent = append(b.sent, sentRec{h, tx, spec, model})
+	if err != nil {
+		return nil, err
+	}
+	return &h, nil
 }
 
 func (b *backend) NotifyReceived(addrs []btcutil.Address) error {
@@ -190,10 +231,10 @@ func (b *backend) sentSince(n int) []sentRec {
 	return append([]sentRec{}, b.sent[n:]...)
 }
 
-func (b *backend) script(answers []simchain.SendAnswer, notifyPass, notifyFail int) {
+func (b *backend) script(answers []ansSpec, notifyPass, notifyFail int) {
 	b.mu.Lock()
 	defer b.mu.Unlock()
-	b.Chain.NextSend = append([]simchain.SendAnswer{}, answers...)
+	b.next = append([]ansSpec{}, answers...)
 	b.Chain.NotifyFail = notifyFail
 	b.notifyPass = notifyPass
 	b.notifyN = 0
@@ -202,10 +243,16 @@ func (b *backend) script(answers []simchain.SendAnswer, notifyPass, notifyFail i
 func (b *backend) clear() int {
 	b.mu.Lock()
 	defer b.mu.Unlock()
-	b.Chain.NextSend = nil
+	b.next = nil
 	b.Chain.NotifyFail = 0
 	b.notifyPass = 0
 	return b.notifyN
+}
+
+func (b *backend) failure() error {
+	b.mu.Lock()
+	defer b.mu.Unlock()
+	return b.sendErr
 }
 
 // ---------------------------------------------------------------- world
@@ -242,34 +289,6 @@ type world struct {
 }
 
 var scope84 = waddrmgr.KeyScopeBIP0084
-
-func answerOf(s string) simchain.SendAnswer {
-	switch s {
-	case "in_mempool":
-		return simchain.AlreadyInMempool
-	case "known":
-		return simchain.AlreadyKnown
-	case "confirmed":
-		return simchain.AlreadyConfirmed
-	case "reject":
-		return simchain.Reject
-	}
-	return simchain.Accept
-}
-
-func answerName(a simchain.SendAnswer) string {
-	switch a {
-	case simchain.AlreadyInMempool:
-		return "in_mempool"
-	case simchain.AlreadyKnown:
-		return "known"
-	case simchain.AlreadyConfirmed:
-		return "confirmed"
-	case simchain.Reject:
-		return "reject"
-	}
-	return "accept"
-}
 
 func newWorld(seed int64) (*world, error) {
 	sd := make([]byte, 32)
@@ -687,39 +706,31 @@ func (wd *world) descendants(id uint64, set []uint64) map[uint64]bool {
 }
 
 // judgeAttempt states the property on one PublishTransaction / SendOutputs.
-// class: accept in_mempool known confirmed reject notify_failure
-func (wd *world) judgeAttempt(ti *txInfo, class string, before, after snapshot, callErr error) {
+//
+//		truth: what the backend meant (accept in_mempool known confirmed reject; "" = not stated),
+//		       or notify_failure when the hand-over's subscription failed
+//		callErr: what the caller got
+//
+//	 1. truth accept / in_mempool: the transaction stays recorded, counted once.
+//	 2. otherwise, when the backend refused it (truth reject), the hand-over
+//	    failed (notify_failure) or the caller got an error for whatever reason:
+//	    the transaction and every unconfirmed transaction spending its outputs
+//	    are forgotten; for a fresh transaction without recorded spenders
+//	    balances and spendable set are exactly those of before the attempt.
+//	 3. truth known / confirmed and success: nothing is demanded - the text does
+//	    not say whether a transaction the chain already contains is kept.
+func (wd *world) judgeAttempt(ti *txInfo, truth string, before, after snapshot, callErr error) {
 	wasUnmined := has(before.Unmined, ti.id) > 0
 	wasKnown := wasUnmined || ti.mined
-	switch class {
-	case "reject", "notify_failure":
-		site := "rejected"
-		if class == "notify_failure" {
-			site = "notify_failure"
-		}
-		if has(after.Unmined, ti.id) > 0 {
-			wd.flag("failed_broadcast_left_trace", site,
-				fmt.Sprintf("tx %d still recorded as unconfirmed after the call returned %v", ti.id, callErr))
-		}
-		for d := range wd.descendants(ti.id, before.Unmined) {
-			if has(after.Unmined, d) > 0 {
-				wd.flag("descendant_survived_failed_broadcast", site,
-					fmt.Sprintf("tx %d spends (transitively) an output of the refused tx %d and is still recorded", d, ti.id))
-			}
-		}
-		if !wasKnown && len(wd.descendants(ti.id, before.Unmined)) == 0 {
-			if fmt.Sprint(before.Bal) != fmt.Sprint(after.Bal) || fmt.Sprint(before.Utxos) != fmt.Sprint(after.Utxos) {
-				wd.flag("balance_changed_after_failed_broadcast", site,
-					fmt.Sprintf("balances %v -> %v, %d -> %d spendable outputs", before.Bal, after.Bal, len(before.Utxos), len(after.Utxos)))
-			}
-		}
-	case "accept", "in_mempool":
+	switch {
+	case truth == "accept" || truth == "in_mempool":
+		class := truth
 		if ti.mined {
 			return
 		}
 		n := has(after.Unmined, ti.id)
 		if n == 0 {
-			wd.flag("mempool_tx_not_recorded", class, fmt.Sprintf("tx %d is not recorded as unconfirmed", ti.id))
+			wd.flag("mempool_tx_not_recorded", class, fmt.Sprintf("tx %d is not recorded as unconfirmed (the call returned %v)", ti.id, callErr))
 			return
 		}
 		if n > 1 {
@@ -768,17 +779,79 @@ func (wd *world) judgeAttempt(ti *txInfo, class string, before, after snapshot, 
 					fmt.Sprintf("balance(0) moved by %d, the transaction accounts for %d", after.Bal[0]-before.Bal[0], delta))
 			}
 		}
+	case truth == "reject" || truth == "notify_failure" || callErr != nil:
+		site := "rejected"
+		switch {
+		case truth == "notify_failure":
+			site = "notify_failure"
+		case truth != "reject":
+			site = "error_returned"
+		}
+		if has(after.Unmined, ti.id) > 0 {
+			wd.flag("failed_broadcast_left_trace", site,
+				fmt.Sprintf("tx %d still recorded as unconfirmed after the call returned %v", ti.id, callErr))
+		}
+		for d := range wd.descendants(ti.id, before.Unmined) {
+			if has(after.Unmined, d) > 0 {
+				wd.flag("descendant_survived_failed_broadcast", site,
+					fmt.Sprintf("tx %d spends (transitively) an output of the refused tx %d and is still recorded", d, ti.id))
+			}
+		}
+		if !wasKnown && len(wd.descendants(ti.id, before.Unmined)) == 0 {
+			if fmt.Sprint(before.Bal) != fmt.Sprint(after.Bal) || fmt.Sprint(before.Utxos) != fmt.Sprint(after.Utxos) {
+				wd.flag("balance_changed_after_failed_broadcast", site,
+					fmt.Sprintf("balances %v -> %v, %d -> %d spendable outputs", before.Bal, after.Bal, len(before.Utxos), len(after.Utxos)))
+			}
+		}
+		// The label handed to PublishTransaction is written in the same database
+		// transaction as the record (wallet.go, PutTxLabel) and is not removed
+		// with it.  The property text spells "forgotten" out as coins, change,
+		// balance and spendable set; a label of a transaction the wallet no
+		// longer knows is reachable through none of them (TxDetails and
+		// LabelTransaction only look at recorded transactions), so it is
+		// reported as an observation (tag), not as a violation.
+		if wd.labelOf(ti.hash) != "" && has(after.Unmined, ti.id) == 0 && !ti.mined {
+			wd.tags["observation:label_left_after_forgotten_tx"] = true
+		}
 	}
 }
 
-func classOf(op opIn) string {
+func (wd *world) labelOf(h chainhash.Hash) string {
+	label := ""
+	_ = wd.view(func(ns walletdb.ReadBucket) error {
+		l, err := wtxmgr.FetchTxLabel(ns, h)
+		if err == nil {
+			label = l
+		}
+		return nil
+	})
+	return label
+}
+
+// siteFor names where to look when an attempt with a raw reply goes wrong: a
+// mapped class that differs from the truth points at chain/errors.go.
+func (wd *world) tagAnswer(spec ansSpec, model string) {
+	wd.tags["form:"+spec.kind] = true
+	switch spec.kind {
+	case "sentinel", "wrapped":
+		wd.tags["sent:"+spec.kind+":"+spec.name] = true
+	case "raw":
+		wd.tags["raw:"+spec.flavour+":"+spec.truth] = true
+		wd.tags["raw_mapped_to:"+model] = true
+		if wires.direct {
+			wd.tags["wire:direct"] = true
+		} else {
+			wd.tags["wire:loopback"] = true
+		}
+	}
+}
+
+// truthOf: what the scripted backend means by its answer to this attempt
+func truthOf(op opIn, spec ansSpec) string {
 	if op.NFail {
 		return "notify_failure"
 	}
-	if op.Ans == "" {
-		return "accept"
-	}
-	return op.Ans
+	return spec.truth
 }
 
 // outputs of a publish/send: the payment to a stranger (unless Amt < 0) and
@@ -848,29 +921,47 @@ func (wd *world) opPublish(op opIn) error {
 
 // attempt = PublishTransaction of ti with the scripted outcome
 func (wd *world) attempt(ti *txInfo, op opIn, src string) error {
+	spec, err := parseAnswer(op.Ans)
+	if err != nil {
+		return err
+	}
 	before, err := wd.observe()
 	if err != nil {
 		return err
 	}
-	class := classOf(op)
+	truth := truthOf(op, spec)
 	nf := 0
 	if op.NFail {
 		nf = 1
 	}
-	wd.ch.script([]simchain.SendAnswer{answerOf(op.Ans)}, 0, nf)
+	n0 := wd.ch.sentCount()
+	wd.ch.script([]ansSpec{spec}, 0, nf)
 	callErr := wd.w.PublishTransaction(ti.tx, "c20")
 	wd.ch.clear()
+	sent := wd.ch.sentSince(n0)
 	res := 1
 	if callErr != nil {
 		res = 2
 	}
-	after, err := wd.emit(evOut{K: "publish", T: ti.id, Ans: ansOrAccept(op.Ans), NOK: !op.NFail, Res: res}, src)
+	// the answer as the model sees it: known once the backend was asked
+	model := spec.src
+	if spec.kind != "accept" && spec.kind != "legacy" {
+		model = "s:" + spec.name
+	}
+	if len(sent) > 0 {
+		model = sent[len(sent)-1].model
+		wd.tagAnswer(spec, model)
+	} else if spec.kind == "raw" {
+		// never reached the backend (subscription failure): any answer will do
+		model = "reject"
+	}
+	after, err := wd.emit(evOut{K: "publish", T: ti.id, Ans: model, Truth: spec.truth, Sent: spec.src, NOK: !op.NFail, Res: res}, src)
 	if err != nil {
 		return err
 	}
-	wd.tags["class:"+class] = true
+	wd.tags["class:"+truth] = true
 	wd.tagChain(ti, before)
-	wd.judgeAttempt(ti, class, before, after, callErr)
+	wd.judgeAttempt(ti, truth, before, after, callErr)
 	return nil
 }
 
@@ -908,11 +999,15 @@ func (wd *world) opSend(op opIn) error {
 		_, err := wd.emit(evOut{K: "nop"}, "send:create_failed")
 		return err
 	}
+	spec, err := parseAnswer(op.Ans)
+	if err != nil {
+		return err
+	}
 	before, err := wd.observe()
 	if err != nil {
 		return err
 	}
-	class := classOf(op)
+	class := truthOf(op, spec)
 	pass, nf := 0, 0
 	switch {
 	case op.NFailC:
@@ -921,7 +1016,7 @@ func (wd *world) opSend(op opIn) error {
 		pass, nf = 1, 1
 	}
 	n0 := wd.ch.sentCount()
-	wd.ch.script([]simchain.SendAnswer{answerOf(op.Ans)}, pass, nf)
+	wd.ch.script([]ansSpec{spec}, pass, nf)
 	tx, callErr := wd.w.SendOutputs(outs, &scope84, 0, op.Minconf, 2000, wallet.CoinSelectionLargest, "c20")
 	calls := wd.ch.clear()
 	sent := wd.ch.sentSince(n0)
@@ -937,11 +1032,7 @@ func (wd *world) opSend(op opIn) error {
 	case len(sent) > 0:
 		// rejected after the broadcast: the store may already have dropped it,
 		// the backend saw it
-		for _, m := range wd.ch.Chain.Sent {
-			if m.TxHash() == sent[len(sent)-1].hash {
-				ti, err = wd.addTx(m, true)
-			}
-		}
+		ti, err = wd.addTx(sent[len(sent)-1].tx, true)
 	}
 	if err != nil {
 		return err
@@ -965,7 +1056,7 @@ func (wd *world) opSend(op opIn) error {
 	if !notifyFailed && (op.NFail || op.NFailC) {
 		// the planned subscription failure did not apply (no change output):
 		// the call went through with the scripted answer
-		class = ansOrAccept(op.Ans)
+		class = spec.truth
 	}
 	if ti == nil {
 		// nothing recorded, nothing sent: creation failed, or the hand-over
@@ -986,7 +1077,12 @@ func (wd *world) opSend(op opIn) error {
 		return fmt.Errorf("send: transaction %d neither sent nor recorded", ti.id)
 	}
 	nok := !(notifyFailed && len(sent) == 0)
-	if _, err := wd.emit(evOut{K: "publish", T: ti.id, Ans: ansOrAccept(op.Ans), NOK: nok, Res: res}, "send"); err != nil {
+	model := "reject"
+	if len(sent) > 0 {
+		model = sent[len(sent)-1].model
+		wd.tagAnswer(spec, model)
+	}
+	if _, err := wd.emit(evOut{K: "publish", T: ti.id, Ans: model, Truth: spec.truth, Sent: spec.src, NOK: nok, Res: res}, "send"); err != nil {
 		return err
 	}
 	if !nok {
@@ -1052,7 +1148,13 @@ func whichOr(s string) string {
 
 // ---------------------------------------------------------------- re-broadcast
 
-func (wd *world) judgeResend(before, after snapshot, offered []uint64, answers []string, site string) {
+// judgeResend states the property on one re-broadcast: every transaction that
+// was unconfirmed before it is offered exactly once, parents first; per
+// offered transaction the consequences of what the backend meant (truths):
+// refused -> it and its unconfirmed descendants are forgotten; accepted or
+// already in the mempool (and not a descendant of a dropped one) -> still
+// recorded exactly once; already known / confirmed -> nothing demanded.
+func (wd *world) judgeResend(before, after snapshot, offered []uint64, truths []string, site string) {
 	pos := map[uint64]int{}
 	for i, id := range offered {
 		if _, dup := pos[id]; dup {
@@ -1084,13 +1186,13 @@ func (wd *world) judgeResend(before, after snapshot, offered []uint64, answers [
 	dropped := map[uint64]bool{}
 	for i, id := range offered {
 		a := "accept"
-		if i < len(answers) {
-			a = answers[i]
+		if i < len(truths) {
+			a = truths[i]
 		}
 		if a == "reject" {
 			refused[id] = true
 		}
-		if a == "reject" || a == "known" || a == "confirmed" {
+		if a != "accept" && a != "in_mempool" {
 			dropped[id] = true
 			for d := range wd.descendants(id, before.Unmined) {
 				dropped[d] = true
@@ -1115,21 +1217,37 @@ func (wd *world) judgeResend(before, after snapshot, offered []uint64, answers [
 	}
 }
 
-func (wd *world) offeredIDs(recs []sentRec) ([]uint64, []string) {
-	ids, ans := []uint64{}, []string{}
+// offeredIDs: per SendRawTransaction call of a re-broadcast the transaction,
+// the answer as the model sees it, and what the backend meant
+func (wd *world) offeredIDs(recs []sentRec) (ids []uint64, answers, truths []string) {
+	ids, answers, truths = []uint64{}, []string{}, []string{}
 	for _, r := range recs {
 		ids = append(ids, wd.ids[r.hash])
-		ans = append(ans, answerName(r.ans))
+		answers = append(answers, r.model)
+		truths = append(truths, r.spec.truth)
+		wd.tagAnswer(r.spec, r.model)
 	}
-	return ids, ans
+	return
 }
 
-func mapAnswers(l []string) []simchain.SendAnswer {
-	out := []simchain.SendAnswer{}
-	for _, s := range l {
-		out = append(out, answerOf(s))
+func sentForms(recs []sentRec) []string {
+	out := []string{}
+	for _, r := range recs {
+		out = append(out, r.spec.src)
 	}
 	return out
+}
+
+func mapAnswers(l []string) ([]ansSpec, error) {
+	out := []ansSpec{}
+	for _, s := range l {
+		a, err := parseAnswer(s)
+		if err != nil {
+			return nil, err
+		}
+		out = append(out, a)
+	}
+	return out, nil
 }
 
 func (wd *world) opResend(op opIn, src string) error {
@@ -1137,17 +1255,22 @@ func (wd *world) opResend(op opIn, src string) error {
 	if err != nil {
 		return err
 	}
-	n0 := wd.ch.sentCount()
-	wd.ch.script(mapAnswers(op.Answers), 0, 0)
-	wd.w.VerifResendUnminedTxs()
-	wd.ch.clear()
-	offered, answers := wd.offeredIDs(wd.ch.sentSince(n0))
-	after, err := wd.emit(evOut{K: "resend", Offered: offered, Answers: answers}, src)
+	specs, err := mapAnswers(op.Answers)
 	if err != nil {
 		return err
 	}
-	wd.tagResend(before, answers)
-	wd.judgeResend(before, after, offered, answers, src)
+	n0 := wd.ch.sentCount()
+	wd.ch.script(specs, 0, 0)
+	wd.w.VerifResendUnminedTxs()
+	wd.ch.clear()
+	recs := wd.ch.sentSince(n0)
+	offered, answers, truths := wd.offeredIDs(recs)
+	after, err := wd.emit(evOut{K: "resend", Offered: offered, Answers: answers, Truths: truths, Sents: sentForms(recs)}, src)
+	if err != nil {
+		return err
+	}
+	wd.tagResend(before, truths)
+	wd.judgeResend(before, after, offered, truths, src)
 	return nil
 }
 
@@ -1211,8 +1334,12 @@ func (wd *world) opRestart(op opIn) error {
 	if err := wd.w.Unlock(walletenv.PrivPass, nil); err != nil {
 		return err
 	}
+	specs, err := mapAnswers(op.Answers)
+	if err != nil {
+		return err
+	}
 	n0 := wd.ch.sentCount()
-	wd.ch.script(mapAnswers(op.Answers), 0, 0)
+	wd.ch.script(specs, 0, 0)
 	wd.w.SynchronizeRPC(wd.ch)
 	wd.ch.Chain.Notify(chain.ClientConnected{})
 	want := len(before.Unmined)
@@ -1241,19 +1368,27 @@ func (wd *world) opRestart(op opIn) error {
 		last = s
 	}
 	wd.ch.clear()
-	offered, answers := wd.offeredIDs(wd.ch.sentSince(n0))
-	after, err := wd.emit(evOut{K: "resend", Offered: offered, Answers: answers}, "restart_sync")
+	recs := wd.ch.sentSince(n0)
+	offered, answers, truths := wd.offeredIDs(recs)
+	after, err := wd.emit(evOut{K: "resend", Offered: offered, Answers: answers, Truths: truths, Sents: sentForms(recs)}, "restart_sync")
 	if err != nil {
 		return err
 	}
-	wd.tagResend(before, answers)
-	wd.judgeResend(before, after, offered, answers, "restart_sync")
+	wd.tagResend(before, truths)
+	wd.judgeResend(before, after, offered, truths, "restart_sync")
 	return nil
 }
 
 // ---------------------------------------------------------------- running a case
 
 func runCase(in caseIn, extraTags []string) (out caseOut, err error) {
+	if in.Map != "" {
+		out, err = runMapCase(in)
+		out.Tags = append(out.Tags, extraTags...)
+		sort.Strings(out.Oracle)
+		sort.Strings(out.Tags)
+		return out, err
+	}
 	wd, err := newWorld(in.Seed)
 	if err != nil {
 		return out, err
@@ -1284,6 +1419,9 @@ func runCase(in caseIn, extraTags []string) (out caseOut, err error) {
 			err = wd.opRestart(op)
 		default:
 			err = fmt.Errorf("unknown op %q", op.K)
+		}
+		if err == nil {
+			err = wd.ch.failure()
 		}
 		if err != nil {
 			return out, fmt.Errorf("op %d (%s): %v", i, op.K, err)
@@ -1408,6 +1546,25 @@ func systematic(seed int64) []caseIn {
 			}
 		}
 	}
+	// PublishTransaction of an already CONFIRMED wallet transaction whose change an unconfirmed
+	// transaction spends (the child hangs on an output that has no unmined credit), refused in
+	// every form / reported as known
+	for _, a := range []string{"reject", "s:ErrDust", "w:ErrMissingInputs", "r:bitcoind:reject:-26:txn-mempool-conflict",
+		"r:neutrino:confirmed:-27:TX rejected: transaction already exists", "known"} {
+		ops := []opIn{
+			{K: "fund", Amts: []int64{1000000}},
+			{K: "publish", Amt: 200000, Minconf: 1},
+			{K: "confirm", N: 1},
+			{K: "publish", Amt: 100000, Minconf: 0},
+			{K: "send", Amt: 50000, Minconf: 0},
+			withClass(opIn{K: "republish", Which: "conf", Pick: 0}, a),
+			{K: "resend"},
+		}
+		n++
+		out = append(out, caseIn{Seed: seed*100000 + n, Ops: ops})
+	}
+	out = append(out, sentinelCases(seed, &n)...)
+	out = append(out, rawCases(seed, &n)...)
 	// SendOutputs whose own subscriptions fail (while creating / in the hand-over)
 	for _, v := range []opIn{{K: "send", Amt: 250000, Minconf: 1, NFail: true}, {K: "send", Amt: 250000, Minconf: 1, NFailC: true},
 		{K: "send", Amt: 250000, Minconf: 0, NFail: true, Ans: "reject"}} {
@@ -1420,7 +1577,112 @@ func systematic(seed int64) []caseIn {
 }
 
 func randomAnswer(r *gen.R) string {
-	return []string{"accept", "in_mempool", "known", "confirmed", "reject"}[r.Pick(8, 3, 1, 1, 4)]
+	return variant(r, []string{"accept", "in_mempool", "known", "confirmed", "reject"}[r.Pick(8, 3, 1, 1, 4)])
+}
+
+// variant replaces a class by one of the forms a backend can say it in: the
+// class's sentinel itself (plain / wrapped), any other sentinel of the
+// rejection class, a raw reply of some backend flavour with that meaning.
+func variant(r *gen.R, class string) string {
+	if class == "accept" || class == "notify_failure" {
+		return class
+	}
+	var names []string
+	for _, s := range chainSrc.Sentinels {
+		if truthOfSentinel(s.Name) == class {
+			names = append(names, s.Name)
+		}
+	}
+	switch r.Pick(3, 3, 2, 4) {
+	case 1:
+		return "s:" + names[r.Intn(len(names))]
+	case 2:
+		return "w:" + names[r.Intn(len(names))]
+	case 3:
+		fl := wireFlavours[r.Intn(len(wireFlavours))]
+		var rows []rawRow
+		for _, row := range rawRowsFor(fl) {
+			if row.truth == class {
+				rows = append(rows, row)
+			}
+		}
+		if len(rows) > 0 {
+			return rows[r.Intn(len(rows))].answer(fl)
+		}
+	}
+	return class
+}
+
+// sentinelCases: EVERY sentinel of the regenerated list answers an initial
+// broadcast (PublishTransaction and SendOutputs, on a transaction chained on
+// an unconfirmed parent), plain and wrapped, and one position of a
+// re-broadcast.
+func sentinelCases(seed int64, n *int64) []caseIn {
+	var out []caseIn
+	const per = 3
+	ss := chainSrc.Sentinels
+	for i := 0; i < len(ss); i += per {
+		ops := []opIn{
+			{K: "fund", Amts: []int64{1500000, 700000}},
+			{K: "mine"},
+			{K: "publish", Amt: 200000, Minconf: 1}, // accepted parent
+		}
+		var last string
+		for j := i; j < i+per && j < len(ss); j++ {
+			a, b := "s:", "w:"
+			if j%2 == 1 {
+				a, b = b, a
+			}
+			ops = append(ops,
+				opIn{K: "publish", Amt: 40000 + int64(j)*10, Minconf: 0, Ans: a + ss[j].Name},
+				opIn{K: "send", Amt: 30000 + int64(j)*10, Minconf: 0, Ans: b + ss[j].Name})
+			last = ss[j].Name
+		}
+		// the parent (and whatever stayed) is re-offered; the first offer is answered with the sentinel
+		ops = append(ops, opIn{K: "send", Amt: 25000, Minconf: 0}, opIn{K: "resend", Answers: []string{"w:" + last}}, opIn{K: "resend"})
+		*n++
+		out = append(out, caseIn{Seed: seed*100000 + *n, Ops: ops})
+	}
+	// an error that is no sentinel at all
+	*n++
+	out = append(out, caseIn{Seed: seed*100000 + *n, Ops: []opIn{{K: "fund", Amts: []int64{900000}}, {K: "mine"},
+		{K: "publish", Amt: 100000, Minconf: 1, Ans: "reject"}, {K: "send", Amt: 100000, Minconf: 1, Ans: "reject"},
+		{K: "send", Amt: 50000, Minconf: 1}, {K: "resend", Answers: []string{"reject"}}}})
+	return out
+}
+
+// rawCases: every ground-truth reply of every backend flavour answers an
+// initial broadcast or a re-broadcast, through the real mapping; plus the
+// mapping of every table key (mapping.go).
+func rawCases(seed int64, n *int64) []caseIn {
+	var out []caseIn
+	const per = 4
+	for _, fl := range wireFlavours {
+		*n++
+		out = append(out, caseIn{Seed: seed*100000 + *n, Map: fl})
+		rows := rawRowsFor(fl)
+		for i := 0; i < len(rows); i += per {
+			ops := []opIn{
+				{K: "fund", Amts: []int64{1500000, 700000}},
+				{K: "mine"},
+				{K: "publish", Amt: 200000, Minconf: 1},
+			}
+			var answers []string
+			for j := i; j < i+per && j < len(rows); j++ {
+				k := []string{"publish", "send"}[j%2]
+				ops = append(ops, opIn{K: k, Amt: 40000 + int64(j)*10, Minconf: 0, Ans: rows[j].answer(fl)})
+				answers = append(answers, rows[j].answer(fl))
+			}
+			// re-broadcast: whatever is recorded now gets the same replies, last first
+			for l, r := 0, len(answers)-1; l < r; l, r = l+1, r-1 {
+				answers[l], answers[r] = answers[r], answers[l]
+			}
+			ops = append(ops, opIn{K: "resend", Answers: answers}, opIn{K: "resend"})
+			*n++
+			out = append(out, caseIn{Seed: seed*100000 + *n, Ops: ops})
+		}
+	}
+	return out
 }
 
 func randomCase(r *gen.R, seed int64, long bool) caseIn {
@@ -1449,7 +1711,7 @@ func randomCase(r *gen.R, seed int64, long bool) caseIn {
 				for j := r.Range(2, 3); j > 0; j-- {
 					op.Own = append(op.Own, int64(r.Range(80, 400))*1000)
 				}
-				c.Ops = append(c.Ops, withClass(op, classes[r.Pick(8, 4, 1, 1, 1, 1)]))
+				c.Ops = append(c.Ops, withClass(op, variant(r, classes[r.Pick(8, 4, 1, 1, 1, 1)])))
 				op = opIn{K: []string{"publish", "send"}[r.Intn(2)], Pct: r.Range(75, 97), Minconf: 0}
 			}
 		case 1:
@@ -1482,7 +1744,7 @@ func randomCase(r *gen.R, seed int64, long bool) caseIn {
 		}
 		if op.K == "publish" || op.K == "send" || op.K == "republish" {
 			if !op.NFailC {
-				op = withClass(op, classes[r.Pick(8, 4, 2, 2, 6, 4)])
+				op = withClass(op, variant(r, classes[r.Pick(8, 4, 2, 2, 6, 4)]))
 			}
 		}
 		c.Ops = append(c.Ops, op)
@@ -1492,9 +1754,15 @@ func randomCase(r *gen.R, seed int64, long bool) caseIn {
 
 func main() {
 	probe := false
+	sentinels := "c20_sentinels.json"
 	core.Main("c20", func(fs *flag.FlagSet) {
 		fs.BoolVar(&probe, "probe", false, "print the behaviourally determined facts of the broadcast path (extract fallback)")
+		fs.StringVar(&sentinels, "sentinels", sentinels, "sentinels and MapRPCErr tables regenerated from package chain (written by lib/extract_c20.py)")
 	}, func(c *core.Common, out *core.Emitter) error {
+		if err := loadSentinels(sentinels); err != nil {
+			return err
+		}
+		defer wires.close()
 		if probe {
 			res, err := runProbe()
 			if err != nil {
@@ -1503,7 +1771,12 @@ func main() {
 			out.Emit(res)
 			return nil
 		}
+		timing := os.Getenv("C20_TIMING") != ""
 		emit := func(in caseIn, tags []string) error {
+			t0 := time.Now()
+			if timing {
+				defer func() { fmt.Fprintf(os.Stderr, "c20: case %d %v %.2fs\n", in.Seed, tags, time.Since(t0).Seconds()) }()
+			}
 			co, err := runCase(in, tags)
 			if err != nil {
 				return fmt.Errorf("case seed %d: %v", in.Seed, err)
